@@ -285,8 +285,32 @@ func suSyncConfig() {
 	}
 }
 
+// suPre: controllers created ahead of their start (`su.open ... createpar=1`: created while the option
+// runFanInitializationInParallel still had its built-in default, true; the configured value is in force when they start)
+var (
+	suPre       = map[string]*suPrepared{}
+	suCreatePar bool
+)
+
+type suPrepared struct {
+	c     controller.FanController
+	curve *suCurve
+}
+
 func suRunOne(f *suFan, ctx context.Context, cancelAfterEval bool) (res string, from int64) {
 	from = atomic.LoadInt64(&suSeq)
+	suFlakyMu.Lock()
+	pre := suPre[f.id]
+	delete(suPre, f.id)
+	suFlakyMu.Unlock()
+	if pre == nil {
+		pre = suPrepare(f)
+	}
+	res = suRunPrepared(pre.c, pre.curve, ctx)
+	return
+}
+
+func suPrepare(f *suFan) *suPrepared {
 	fan := f.newFan()
 	if f.panicAttachUs > 0 {
 		fan = &panicFan{Fan: fan, after: time.Duration(f.panicAttachUs) * time.Microsecond}
@@ -302,6 +326,10 @@ func suRunOne(f *suFan, ctx context.Context, cancelAfterEval bool) (res string, 
 	}
 	suFlakyMu.Unlock()
 	c := controller.NewFanController(p, fan, control_loop.NewDirectControlLoop(nil), 2*time.Millisecond)
+	return &suPrepared{c: c, curve: curve}
+}
+
+func suRunPrepared(c controller.FanController, curve *suCurve, ctx context.Context) (res string) {
 	cctx, cancel := context.WithCancel(ctx)
 	defer cancel()
 	errCh := make(chan error, 1)
@@ -372,6 +400,8 @@ func init() {
 			configuration.CurrentConfig.Fans = nil
 			suEvents = nil
 			configuration.CurrentConfig.RunFanInitializationInParallel = a.bool("parallel", true)
+			suCreatePar = a.bool("createpar", false)
+			suPre = map[string]*suPrepared{}
 			configuration.CurrentConfig.RpmPollingRate = 2 * time.Millisecond
 			configuration.CurrentConfig.RpmRollingWindowSize = 10
 			configuration.CurrentConfig.TempSensorPollingRate = 200 * time.Millisecond
@@ -637,6 +667,17 @@ func init() {
 					time.Sleep(time.Duration(c) * time.Microsecond)
 					tcancel()
 				}()
+			}
+			if suCreatePar {
+				// the controllers exist before the configured value of the option is in force (nothing runs meanwhile)
+				saved := configuration.CurrentConfig.RunFanInitializationInParallel
+				configuration.CurrentConfig.RunFanInitializationInParallel = true
+				for _, id := range ids {
+					if suFans[id] != nil {
+						suPre[id] = suPrepare(suFans[id])
+					}
+				}
+				configuration.CurrentConfig.RunFanInitializationInParallel = saved
 			}
 			for i, id := range ids {
 				wg.Add(1)
